@@ -95,7 +95,7 @@ def main(argv=None):
             nviol=nviol,
         )
         print(
-            f"{prop} tier={args.tier} seed={seed}: evaluations={merged['evaluations']} distinct_nontrivial={len(merged['nontrivial'])} "
+            f"{prop} tier={args.tier} seed={seed}: evaluations={merged['evaluations']} distinct_nontrivial={len(merged['nontrivial']) + merged.get('nt_extra', 0)} "
             f"excluded_known={sum(merged['excluded'].values())} violations={nviol} wall={time.time() - t0:.1f}s evidence={os.path.relpath(path, common.VERIF)}"
         )
         return 1 if nviol else 0
